@@ -305,7 +305,7 @@ def run(check, repo: Repo) -> None:
                      fail_detail=f"mask={unparse(mk) if mk is not None else None}: zero-filled bright-field pixels outside the overlap are treated as data and can "
                                  f"tie two stretches of the overlap's boundary to the same 2π level (a tear inside the connected region)")
     rets = [unparse(n.value) for n in ast.walk(ub) if isinstance(n, ast.Return)]
-    check.decide(rets == ["phase_grid[bf_mask]"], "C17-R5", "unwrap_bf_overlap_phase_torch returns the unwrapped phases at the bright-field pixels", str(rets), dmod.line(ub),
+    check.decide(bool(rets) and set(rets) == {"phase_grid[bf_mask]"}, "C17-R5", "unwrap_bf_overlap_phase_torch returns the unwrapped phases at the bright-field pixels", str(rets), dmod.line(ub),
                  fail_detail=str(rets))
 
 
